@@ -776,6 +776,8 @@ plain: {x: string}
 		`{"name":"a","flag":true,"n":1,"kind":"fixed","in":{"q":true},"when":"yesterday"}`, `[]`, `null`}},
 	// witness of C01_cue_parser_sound_counterexample (lean/Cog/Props/C01.lean): CUE `int` is unbounded, the IR says int64
 	{"cuepinint", `#R: int`, "R", []string{`9223372036854775808`, `9223372036854775807`, `-9223372036854775809`, `1.5`, `"a"`}},
+	// witness of C01_cue_parser_sound_counterexample_required_constant: CUE fills in the absent constant, the IR says required
+	{"cuepinconst", `#R: {kind: "fixed"}`, "R", []string{`{}`, `{"kind":"fixed"}`, `{"kind":"other"}`}},
 	{"cuepinerr0", `#R: {nb?: number & <7.25}`, "R", nil},
 	{"cuepinerr1", `#R: {l: [string, string]}`, "R", nil},
 	{"cuepinerr2", `#R: {e: 1 | 2}`, "R", nil},
